@@ -581,6 +581,10 @@ been initialized
                         render_data, real_render_args, output
                     )
                     raise
+        except KeyboardInterrupt:
+            # Animations are terminated silently, even while being set up
+            if not animation:
+                raise
         finally:
             output.write("\n")
             if hide_cursor:
